@@ -16,6 +16,12 @@ type V = Option<(String, String, String)>;
 
 fn check_dag(ont: &Ontology, r: &RefOnt) -> V {
     let ids: Vec<u32> = r.terms.keys().copied().collect();
+    check_dag_ids(ont, r, &ids)
+}
+
+/// all ordered pairs over `ids` (a subset of the terms for very large shapes)
+fn check_dag_ids(ont: &Ontology, r: &RefOnt, ids: &[u32]) -> V {
+    let ids: Vec<u32> = ids.to_vec();
     let up: BTreeMap<u32, BTreeMap<u32, usize>> = ids.iter().map(|i| (*i, r.up_distances(*i))).collect();
     let v = |site: &str, sig: &str, det: String| Some((site.to_string(), sig.to_string(), det));
     for &a in &ids {
@@ -103,7 +109,7 @@ fn nontrivial(d: &Dag) -> bool {
 
 fn large(ctx: &mut Ctx) {
     let family = crate::props::common::large_family();
-    ctx.space("large-structured/all-ordered-pairs", &format!("{} large shapes (chains up to 100, fans, binary tree, ladder with 2^8 routes, total order on 12 terms, joined chains) x all ordered pairs", family.len()));
+    ctx.space("large-structured/all-ordered-pairs", &format!("{} large shapes (chains up to 100, a deep chain of 300 with a shortcut, fans, binary tree, ladder with 2^8 routes, total order on 12 terms, joined chains) x all ordered pairs (more than 120 terms: all ordered pairs of ~30 selected terms)", family.len()));
     for (f, what) in &family {
         if !ctx.take() {
             continue;
@@ -119,7 +125,9 @@ fn large(ctx: &mut Ctx) {
             ctx.violation("Builder", "[builder] construction fails on valid facts", json!({"shape": what}));
             continue;
         };
-        match guard(|| check_dag(&ont, &r)) {
+        // shapes with more than 120 terms: ordered pairs over selected terms (both ends, the 8-bit depth boundary, branch points)
+        let sel: Vec<u32> = if n > 120 { crate::props::common::selected_positions(n).into_iter().map(|k| f.terms[k].id).collect() } else { f.terms.iter().map(|t| t.id).collect() };
+        match guard(|| check_dag_ids(&ont, &r, &sel)) {
             Ok(None) => {}
             Ok(Some((site, sig, det))) => ctx.violation(&site, &format!("[large shape] {sig}"), json!({"shape": what, "n_terms": n, "difference": det})),
             Err(p) => ctx.violation("HpoTerm::path_to_term", "[large shape] panics", json!({"shape": what, "observed": p})),
